@@ -14,12 +14,23 @@
       body is answered in turn, left to right): `answers_are_derivable_partial`;
     * the facts the statement's last two sentences rest on (no leakage between alternatives,
       answer formatting).
-  NOT proved: completeness, order and multiplicity (the other half of the refinement).
+    * REFINEMENT on the cut-free, negation-free fragment (calls, built-ins other than `!`, conjunctions,
+      disjunctions, in queries and in every rule body) — `C01_pure`: for every such knowledge base, query,
+      number of requests and fuel, what the successive requests return (answer or none, and the text
+      written so far) is exactly what the reference machine of `Spec/PureMachine.lean` shows when started
+      on the query: the same answers in the same order with the same multiplicity, none once the
+      machine's stack is empty and for ever after. The machine is depth-first, left-to-right,
+      clause-order resolution by construction (a stack of `goals` / `try` frames, one rule per frame
+      kind) and the silent runs between two answers contain no other answer.
+  NOT proved: the refinement for programs with `!`, `not`, `time` (for those: soundness above, the C02 /
+  C03 / C05 theorems, and the machine comparison on every run); uniqueness of the machine's run needs
+  the fuel-monotonicity of the unification model and is not proved either.
 -/
 import SuironVerif.Model.Solve
 import SuironVerif.Spec.Machine
 import SuironVerif.Lemmas.Exhausted
 import SuironVerif.Lemmas.EngineSound
+import SuironVerif.Lemmas.EngineRefine
 namespace Suiron.C01
 
 /-- the answers of a sequence of requests on one query (one fuel value per request) -/
@@ -55,6 +66,22 @@ theorem answers_are_derivable_partial (fo : FloatOps) (kb : KB) (q : Term) (σ0 
     (hmk : mkNode fo.showF kb (.call q) σ0 g0 = .ok (node, g1)) (fs : List Nat) (σ' : Subst)
     (h : some σ' ∈ askN fo kb fs node g1) : Spec.Derives fo kb (.call q) σ0 σ' :=
   askN_sound fo kb fs node g1 _ (Spec.mkNode_sound fo kb _ σ0 g0 node g1 _ hmk (fun _ h => h)) σ' h
+
+/-- REFINEMENT, cut-free and negation-free fragment: the requests on the base node of a query show exactly
+    the behaviour of the reference machine started on that query. -/
+theorem C01_pure (fo : FloatOps) (kb : KB)
+    (hkb : ∀ key rs, kb.get key = some rs → ∀ r ∈ rs, r.body.isNil = true ∨ Spec.pureG r.body = true)
+    (q : Term) (σ0 : Subst) (g0 g1 : G) (node : Node)
+    (hmk : mkNode fo.showF kb (.call q) σ0 g0 = .ok (node, g1)) (hg : Spec.GOK g0) (fs : List Nat) :
+    Spec.MRun fo kb ⟨[.goals [.call q] σ0], g0.counter, g0.out⟩ (Spec.askOut fo kb fs node g1) :=
+  Spec.query_refines_machine fo kb (Spec.pureKB_of_rules kb hkb) q σ0 g0 g1 node hmk hg fs
+
+/-- the same for any node of the fragment reached during a search (re-asked nodes, stale children included) -/
+theorem C01_pure_node (fo : FloatOps) (kb : KB)
+    (hkb : ∀ key rs, kb.get key = some rs → ∀ r ∈ rs, r.body.isNil = true ∨ Spec.pureG r.body = true)
+    (fs : List Nat) (N : Node) (g : G) (hp : Spec.pureN N) (hg : Spec.GOK g) :
+    Spec.MRun fo kb ⟨Spec.absN N [], g.counter, g.out⟩ (Spec.askOut fo kb fs N g) :=
+  Spec.engine_refines_machine fo kb (Spec.pureKB_of_rules kb hkb) fs N g hp hg
 
 /-- bindings of an abandoned alternative cannot leak: the substitution set a node was created with
     is never modified by any request on it (every alternative starts again from that very set). -/
@@ -203,6 +230,24 @@ theorem format_skip_nonvar_partial (sf : UInt64 → String) (q : Term) (qs rs : 
 theorem machine_answer_partial (fo : FloatOps) (kb : KB) (c : Spec.Config) (σ : Subst) (h : c.cur = some ([], σ)) :
     (Spec.step fo kb c).1.answers = σ :: c.answers := by
   simp [Spec.step, h]
+
+/-! non-vacuity: a knowledge base with a fact and a rule whose body is a disjunction of a call and a
+    unification meets the hypothesis of `C01_pure` -/
+def kbEx : KB := [("p/1", [⟨.cplx (.cons (.atom "p") (.cons (.atom "a") .nil)), .nil⟩,
+                            ⟨.cplx (.cons (.atom "p") (.cons (.var 0 "$X") .nil)),
+                             .or (.cons (.call (.cplx (.cons (.atom "q") (.cons (.var 0 "$X") .nil))))
+                                  (.cons (.bip "unify" (some (.cons (.var 0 "$X") (.cons (.atom "b") .nil)))) .nil))⟩])]
+example : ∀ key rs, kbEx.get key = some rs → ∀ r ∈ rs, r.body.isNil = true ∨ Spec.pureG r.body = true := by
+  intro key rs h r hr
+  unfold kbEx at h
+  simp only [KB.get] at h
+  split at h
+  · cases h
+    simp at hr
+    rcases hr with rfl | rfl
+    · left; rfl
+    · right; decide
+  · cases h
 
 def fo0 : FloatOps := ⟨fun a _ => a, fun a _ => a, fun a _ => a, fun a _ => a, fun _ => 0, fun _ => ""⟩
 example : formatSolution fo0.showF
